@@ -393,11 +393,12 @@ def mutation_bases(tier):
     """base messages whose encodings span the mutation neighbourhood of C04.
     thorough: every point of K1..K4 at the three base points;
     quick: every point of K1, K2, K4 at the three base points and the K3 points with TSC == TN at base point (index mod 3).
-    (K2j/K4j encode to the same octets as K2/K4 messages and are left out.)"""
+    Left out because they encode to octets that are already there: K2j/K4j (same octets as K2/K4 messages) and the
+    version-1 points with legacy on (padding applies to version 0 only, same octets as with legacy off)."""
     out = []
     for p in points():
         k = p["kind"]
-        if k in ("K2j", "K4j"):
+        if k in ("K2j", "K4j") or (p["ver"] == 1 and p["legacy"]):
             continue
         bases = (0, 1, 2)
         if tier != "thorough" and k == "K3":
